@@ -5,8 +5,9 @@ name=$1; shift
 cd /repo || exit 2
 if ! git diff --quiet; then echo "/repo has uncommitted changes"; exit 2; fi
 git apply /verif/seeded/$name/patch.diff || { echo "patch does not apply"; exit 2; }
-trap 'git -C /repo checkout -- . ' EXIT
 cd /verif
+rm -rf .work/evidence-backup && cp -r evidence .work/evidence-backup
+trap 'git -C /repo checkout -- . ; rm -rf /verif/evidence; mv /verif/.work/evidence-backup /verif/evidence' EXIT
 for p in "$@"; do
   out=$(./check $p 2>&1)
   n=$(echo "$out" | grep -c '^VIOLATION')
